@@ -194,10 +194,34 @@ class Eval(object):
                     if len(pt) == 1:
                         return list(pt)[0]
                 raise ieval.Unknown("pdu_type() with several possible values")
+            # anything else the body reads from the OBJECT (a const accessor such as type(), a field): a state the caller
+            # cannot exclude.  A(K) is the set of flags accepted in SOME state, so the term ranges over the constants the
+            # body compares things with (and 0)
+            me = strip(n["c"][0]) if n.get("c") else None
+            obj = strip(me["c"][0]) if me is not None and me.get("c") else None
+            if (n.get("cname") or "").startswith("operator ") and len(n["c"]) == 1 and obj is not None and obj["k"] == "CXXMemberCallExpr":
+                return ieval.ev(f, obj, env)        # small_uint<n> -> integer conversion of an accessor's result
+            if len(n["c"]) == 1 and (n.get("callee") or "").rstrip().endswith("const") and \
+                    (obj is None or obj["k"] == "CXXThisExpr" or (obj["k"] == "MemberExpr" and obj.get("isfield"))):
+                key = facts.expr_str(n)
+                state_terms.setdefault(key, None)
+                return oracle.get(key, 0)
             return None
+        state_terms = {}
+        oracle = {}
         env["__termfn__"] = tf
         try:
             r = ieval.run_body(f, f["body"], env)
+            if state_terms and not r:
+                import itertools
+                consts = sorted(set(int(facts.cval(x)) for x in facts.fn_nodes(f) if facts.cval(x) is not None) | {0})[:12]
+                keys = sorted(state_terms)[:3]
+                for vals in itertools.product(consts, repeat=len(keys)):
+                    oracle.clear()
+                    oracle.update(zip(keys, vals))
+                    r = ieval.run_body(f, f["body"], env)
+                    if r:
+                        break
         except ieval.Unknown as ex:
             raise AnalysisBroken("matches_flag body %s is outside the finite evaluator: %s" % (facts.loc(f), ex))
         if r is None:
@@ -253,17 +277,21 @@ class Eval(object):
 
 
 def synth_cacher_tu(db, concrete):
+    """explicit instantiations of the PDUCacher<K> members of interest for every concrete layer class.  Members whose
+    signature is fixed by PDU's virtual interface are named; clone() - whose return type is the class's own choice
+    (covariant or not) - is instantiated by a call, so that the unit compiles whenever the library does"""
     lines = ["#include <tins/tins.h>", "#include <tins/pdu_cacher.h>"]
     hdrs = sorted(set(db.records[K]["file"] for K in concrete))
     for h in hdrs:
         if h.startswith("include/"):
             lines.append("#include <%s>" % h[len("include/"):])
+    lines.append("template <class K> void verif_use_clone(const Tins::PDUCacher<K>& c) { (void)c.clone(); }")
     for K in concrete:
         if not db.records[K]["file"].startswith("include/"):
             continue
         lines.append("template bool Tins::PDUCacher< %s >::matches_flag(Tins::PDU::PDUType) const;" % K)
         lines.append("template Tins::PDU::PDUType Tins::PDUCacher< %s >::pdu_type() const;" % K)
-        lines.append("template Tins::PDUCacher< %s >* Tins::PDUCacher< %s >::clone() const;" % (K, K))
+        lines.append("template void verif_use_clone< %s >(const Tins::PDUCacher< %s >&);" % (K, K))
         lines.append("template bool Tins::PDUCacher< %s >::matches_response(const uint8_t*, uint32_t) const;" % K)
         lines.append("template uint32_t Tins::PDUCacher< %s >::header_size() const;" % K)
         lines.append("template void Tins::PDUCacher< %s >::write_serialization(uint8_t*, uint32_t);" % K)
